@@ -180,6 +180,36 @@ def sbt%(u)s_b(x):
 print(sbt%(u)s_a(%(b)d)[0], sbt%(u)s_b(-1)[0])""" % {"u": u, "e": elems, "k": 2 ** 40 + base, "b": base + 3}
 
 
+@template(tags=("shared_consts", "FLAG_REF", "frozenset"))
+def t_shared_frozenset(rng, lvl, u):
+    """The same set display (ints or bytes) in a class body and in its methods: the compiler merges the
+    frozenset constants and marshal writes one of them with FLAG_REF plus back-references."""
+    base = rng.randrange(300, 9000)
+    elems = ", ".join(str(base + i) for i in rng.sample(range(12), rng.randrange(3, 7)))
+    return """class SF%(u)s(object):
+    ok = %(b)d in {%(e)s}
+    def m(self, x):
+        return x in {%(e)s}
+    def n(self, x):
+        return x not in {%(e)s}, (%(b)d, %(b)d)
+print(SF%(u)s.ok, SF%(u)s().m(%(b)d), SF%(u)s().n(1))""" % {"u": u, "e": elems, "b": base}
+
+
+@template(tags=("while_long_body", "backward_lines", "line_gaps"))
+def t_long_loop(rng, lvl, u):
+    """A loop whose body spans more than 127 source lines: the jump back to the loop head is a line step
+    below -127 (multi-entry line-table gap, negative direction)."""
+    n = rng.choice([130, 140, 260])
+    body = "\n".join("        t += %d" % i for i in range(n))
+    return """def ll%(u)s(k):
+    t = 0
+    while k > 0:
+        k -= 1
+%(body)s
+    return t
+print(ll%(u)s(2))""" % {"u": u, "body": body}
+
+
 @template(tags=("closure", "cell_param"))
 def t_closure(rng, lvl, u):
     depth = rng.randrange(1, 5)
@@ -584,8 +614,8 @@ def wrap_in_class(code, u):
     return "class Wrap%s(object):\n%s\n    pass" % (u, ind)
 
 
-NO_WRAP = {"t_shared_big_tuple", "t_many_names", "t_misc", "t_import", "t_pep695", "t_line_gaps"}
-NO_CLASS_WRAP = NO_WRAP | {"t_class3", "t_closure", "t_shared", "t_class2", "t_async", "t_control", "t_deep",
+NO_WRAP = {"t_shared_frozenset", "t_shared_big_tuple", "t_many_names", "t_misc", "t_import", "t_pep695", "t_line_gaps"}
+NO_CLASS_WRAP = NO_WRAP | {"t_long_loop", "t_class3", "t_closure", "t_shared", "t_class2", "t_async", "t_control", "t_deep",
                            "t_backward_lines", "t_long_columns", "t_py2_long", "t_ints", "t_floats", "t_complex",
                            "t_strings", "t_bytes", "t_comp", "t_misc3", "t_try_nest", "t_match", "t_except_star",
                            "t_args2", "t_args3", "t_long_body", "t_fstring", "t_walrus", "t_compare", "t_doc",
@@ -630,6 +660,15 @@ def gen_program(seed, lvl, n_snippets=None, focus=None):
         parts.append("\n" * rng.choice([0, 0, 1, 2, 5]))
         tags.extend(t["tags"])
     return "\n".join(parts) + "\n", sorted(set(tags))
+
+
+def gen_single(seed, lvl, template_name):
+    """A program made of exactly one named template (used where a workload must contain a given feature)."""
+    rng = random.Random("single|%s|%s|%s" % (seed, lvl, template_name))
+    for t in eligible(lvl):
+        if t["name"] == template_name:
+            return t["fn"](rng, lvl, "s%d" % rng.randrange(100)) + "\n", list(t["tags"])
+    return None, []
 
 
 if __name__ == "__main__":
